@@ -136,7 +136,13 @@ def extract_profile():
     if len(idx_loads) != 3 or len(idx_stores) != 3: problems.append(f'expected 3 index loads and 3 index stores, found {len(idx_loads)}/{len(idx_stores)}')
     # the liveness decision must be taken from the value returned by the RMW itself
     m = re.search(r'fn\s+set_alive[^{]*\{(.*?)\n    \}', txt, re.S)
-    rmw_decides = bool(m and re.search(r'self\.alive\.fetch_and\([^)]*\)\s*&\s*!\s*flag\s*==\s*0', m.group(1)) and '.load(' not in m.group(1))
+    def _rmw_decides(body):
+        if '.load(' in body: return False
+        b = re.sub(r'\s+', '', body)
+        if re.search(r'\(?self\.alive\.fetch_and\([^)]*\)&!flag\)?==0', b): return True
+        lm = re.search(r'let(\w+)=self\.alive\.fetch_and\([^)]*\);', b)      # the value read by the RMW, named
+        return bool(lm and re.search(r'\(?' + lm.group(1) + r'&!flag\)?==0', b) and b.count('fetch_and(') == 1)
+    rmw_decides = bool(m and _rmw_decides(m.group(1)))
     if not rmw_decides: problems.append('set_alive: "was I the last" is not decided from the value returned by fetch_and alone')
     br = strip_comments(open(os.path.join(REPO, 'src/ring_buffer/wrappers/buf_ref.rs')).read())
     fb = fa = True
@@ -779,6 +785,12 @@ def extract_accessors():
                 (f'set_{st}_alive', [rf'(?:unsafe\{{)?\*self\.{st}_alive\.get\(\)=alive;?\}}?!\(self\.prod_alive\(\)\|\|self\.work_alive\(\)\|\|self\.cons_alive\(\)\)',
                                      rf'self\.set_alive\({st.upper()}_ALIVE,alive\)'])):
                 params, b = body_of(t, acc)
+                if b is not None:
+                    # one level of private helper for the `no flag is set any more` answer: fn h(&self) -> bool { !(a() || b() || c()) }
+                    for hm in re.finditer(r'self\.(\w+)\(\)', b):
+                        hp, hb = body_of(txt, hm.group(1))
+                        if hb == '!(self.prod_alive()||self.work_alive()||self.cons_alive())' and hm.group(1) not in ('prod_alive', 'work_alive', 'cons_alive'):
+                            b = b.replace(hm.group(0), hb)
                 ok = b is not None and any(re.fullmatch(tp, b) for tp in templates)
                 rows.append((variant, acc, ok))
                 if not ok: problems.append(f'{rel}::{acc}: body `{b}` is not a plain access of its own field')
